@@ -19,27 +19,27 @@ chk("C05",
     "deviation-bounded exhaustive exploration against an exact greedy reference",
     "DESIGN.md section 3 C05")
 chk("C06",
-    "Explicit-state BFS over histories {create instance, randomize, randomize_with(inline set from a 9+5 entry menu incl. dynamic references, their &,|,~ compositions and indexed references through a list)} on a population of up to 4 roots; each randomizing step explored with <=2 non-default answers; reachable (a,b) pairs of every instance under the call must EQUAL the reference solution set, other instances untouched; hidden fingerprint (pretty-printed models, wrapper targets, shared stacks) turns any leftover trace into a new state.",
+    "Explicit-state BFS over histories {create instance, randomize, randomize_with(inline set from a 9+5 entry menu incl. dynamic references, their &,|,~ compositions and indexed references through a list)} on a population of up to 4 roots; each randomizing step explored with <=2 non-default answers; reachable (a,b) pairs of every instance under the call must EQUAL the reference solution set, other instances untouched; hidden fingerprint (pretty-printed models, wrapper targets, shared stacks) turns any leftover trace into a new state. Plus all inline histories of length<=3 (thorough 4) over 6 scenarios on a class whose dynamic blocks contain softs and forward references, each last call over its complete answer tree.",
     "Trusted: per-instance predicates in props/c06.py. Deviation bound 2 reaches every value pair of one instance (argument in DESIGN.md).",
     "explicit-state BFS over API histories with deviation-bounded exploration of each randomizing step",
     "DESIGN.md section 3 C06")
 chk("C07",
-    "Explicit-state BFS (depth 5 quick / 6 thorough) over histories {toggle a block of an instance on/off, create instance, randomize root} on Base/Derived(overrides c1)/nested/list-held instances; each randomize explored with <=1 non-default answer; per-field reachable value sets must EQUAL what the enabled most-derived blocks of that very instance allow; other instances untouched. State key = reference enabled map + per-instance block flags + class-level wrapper flags.",
+    "Explicit-state BFS (depth 5 quick / 6 thorough) over histories {toggle a block of an instance on/off, create instance, randomize root} on Base/Derived(overrides c1)/nested/list-held instances; each randomize explored with <=1 non-default answer; per-field reachable value sets must EQUAL what the enabled most-derived blocks of that very instance allow; other instances untouched. State key = reference enabled map + per-instance block flags + class-level wrapper flags. One block name extends another's. Plus all operation sequences {off,on,append,rand}^<=4 on a block holding a foreach.",
     "Trusted: ALLOWED table in props/c07.py. All constraints are per field, so per-field equality is exact.",
     "explicit-state BFS over API histories with state merging on reference state + hidden fingerprint",
     "DESIGN.md section 3 C07")
 chk("C14",
-    "(bounds) for every program of the C01/C02 core space, every non-random value and a menu of previous values, the range list captured at the Randomizer.randomize seam must contain every value of the reference solution set projected on each field; a field no constraint mentions must have its whole type. (support) complete answer trees of ~250 one-field and two-field programs: every feasible value must be produced by some answer sequence.",
+    "(bounds) for every program of the C01/C02 core space, every non-random value and a menu of previous values, the range list captured at the Randomizer.randomize seam must contain every value of the reference solution set projected on each field; a field no constraint mentions must have its whole type. (support) complete answer trees of ~400 one-, two- and three-field programs (incl. ordering directives with a field no directive names, and a field of a non-random sub-object that has a block of its own): every feasible value must be produced by some answer sequence.",
     "Trusted: mc/ref.py; seam = wrapping Randomizer.randomize by name (fails closed if it disappears). Soft constraints are excluded from this oracle.",
     "exhaustive comparison of captured inferred ranges with enumerated solution sets + complete-tree support check",
     "DESIGN.md section 3 C14")
 chk("C15",
-    "Every weight list of 1-3 entries (values/ranges, weights 0..3 or from a non-random field, signed and unsigned fields) alone and with accompanying constraints, explored over the COMPLETE tree of answers with exact Fraction probabilities (mass sums to 1, asserted): zero-weight/unlisted mass is 0; unconstrained dist has P(entry)=w/total, uniform inside ranges (exact equality). distselect/randselect over all weight vectors of length <=4: exact P(i)=w_i/total.",
+    "Every weight list of 1-3 entries (values/ranges, weights 0..3 or from a non-random field, signed and unsigned fields) alone and with accompanying constraints, explored over the COMPLETE tree of answers with exact Fraction probabilities (mass sums to 1, asserted): zero-weight/unlisted mass is 0; unconstrained dist has P(entry)=w/total, uniform inside ranges (exact equality). dist inside foreach; weights from non-random fields changed between calls on one object (exact distribution of the last call). distselect/randselect over all weight vectors of length <=4: exact P(i)=w_i/total.",
     "Trusted: each randint() is uniform (CPython random). Programs whose tree exceeds the cap are counted, never judged.",
     "complete-tree exploration with exact outcome distributions",
     "DESIGN.md section 3 C15")
 chk("C20",
-    "156+ programs with ordering directives (single, list form, a before [b,c], chains), complete answer trees, exact distributions: support == reference solution set; uniform marginal of a when F_a == D_a; pair relation: equal (type of a, F_a, D_a) implies equal exact marginal of a across programs with different b-sides.",
+    "156+ programs with ordering directives (single, list form, a before [b,c], chains), complete answer trees, exact distributions: support == reference solution set; uniform marginal of a when F_a == D_a; pair relation: equal (type of a, F_a, D_a) implies equal exact marginal of a across programs with different b-sides. Direct programs: a list on the after side, two ordered groups in one call, inline directives that change between calls on one object (distribution equal to a fresh object's).",
     "Trusted: mc/ref.py for solution sets; D_a captured at the Randomizer.randomize seam.",
     "complete-tree exploration with exact outcome distributions and a relational (pairwise) oracle",
     "DESIGN.md section 3 C20")
@@ -49,22 +49,22 @@ chk("C03",
     "explicit-state BFS over API histories with deviation-bounded exploration of each randomizing step and an equality oracle",
     "DESIGN.md section 3 C03")
 chk("C08",
-    "All object trees of depth<=2, fan-out<=2 from two classes (two siblings of one class always present, every attribute random or non-random, optional rand_list_t/list_t of two leaves) x cross-level constraint sets x presets that make non-random sub-objects violate their own block: every answer sequence with <=1 non-default answer (constraints hold on path-named fields, non-random parts untouched, their blocks not imposed) plus witness-directed executions for every value of every field projection and every value pair of sibling/list-element pairs (equality with the enumerated reference solution set).",
+    "All object trees of depth<=2, fan-out<=2 from two classes (two siblings of one class always present, every attribute random or non-random, optional rand_list_t/list_t of two leaves) x cross-level constraint sets x presets that make non-random sub-objects violate their own block: every answer sequence with <=1 non-default answer (constraints hold on path-named fields, non-random parts untouched, their blocks not imposed) index-selected and nested-list references, a foreach in the own block of objects below list elements, a non-random sub-object holding a random-size list; plus witness-directed executions for every value of every field projection and every value pair of sibling/list-element pairs (equality with the enumerated reference solution set).",
     "Trusted: reference in props/objtree.py; solution sets enumerated for trees with <=8 random fields (larger trees get the inclusion oracle only).",
     "bounded exhaustive exploration over object-tree shapes + witness-directed reachability of every projected solution value",
     "DESIGN.md section 3 C08")
 chk("C16",
-    "Fault enumeration: every (scenario, fault position) pair - user exception at each statement position of a constraint body during construction (top level, inside if_then/implies/foreach, with a dangling expression), at each statement position of a randomize_with block, in pre/post_randomize of each object of the tree, unsatisfiable calls (once and twice) - x every follow-up sequence of length<=2 out of 6 follow-ups; checks (i) process-wide stacks empty and no override node / solver handle left on the victim, (ii) differential twin (pristine session run first in the same process) under identical answer scripts with <=1 deviation.",
+    "Fault enumeration: every (scenario, fault position) pair - user exception at each statement position of a constraint body during construction (top level, inside if_then/implies/foreach, with a dangling expression), at each statement position of a randomize_with block, in pre/post_randomize of each object of the tree, unsatisfiable calls (once, twice, with solve_fail_debug=1), free-function with-blocks, dynamic-constraint bodies - x every follow-up sequence of length<=2 out of 6 follow-ups; checks (i) process-wide stacks empty and no override node / solver handle left on the victim, (ii) differential twin (pristine session run first in the same process) under identical answer scripts with <=1 deviation.",
     "Trusted: stack list and model walk in props/c16.py. Library-internal exceptions (not user code) are outside the statement.",
     "exhaustive fault-position enumeration with differential twin and state-idle invariant",
     "DESIGN.md section 3 C16", category="fault_enumeration")
 chk("C17",
-    "All object trees of props/objtree.py x {randomize, randomize_with, vsc.randomize} x values assigned by pre_randomize to a non-random field used in a constraint; every answer sequence with <=1 non-default answer; each class records (object, phase, snapshot). Oracle: exactly one pre and one post per object random in the call, none at or below a non-random sub-object; all pre before all post; pre sees pre-call values; solver saw pre's assignment; post sees final values.",
+    "All object trees of props/objtree.py x {randomize, randomize_with, vsc.randomize} x values assigned by pre_randomize to a non-random field used in a constraint; every answer sequence with <=1 non-default answer; each class records (object, phase, snapshot). Oracle: exactly one pre and one post per object random in the call, none at or below a non-random sub-object; all pre before all post; pre sees pre-call values; solver saw pre's assignment; post sees final values. Random-size object lists whose solved size is below the number of populated elements: pre and post on the same objects.",
     "Trusted: expected_events() derived from the tree spec.",
     "bounded exhaustive exploration over object-tree shapes and call kinds with an event-log oracle",
     "DESIGN.md section 3 C17")
 chk("C04",
-    "Every program of a list grammar (bit/int/enum/object elements; fixed sizes 0..3; random sizes under 6 size constraints incl. size tied to a scalar and to an element; foreach over element/index/both with index arithmetic and neighbour relations; sum, product, unique, unique_vec, membership; pairs of statements) x every answer sequence with <=1 non-default answer, two consecutive calls, followed by every edit history of length<=2 out of 7 edits compared step by step with a Python-list twin and a further call. Oracle over what the list exposes: statements over list(o.l); len == size == iteration length; index == iteration; fixed size kept; size constraint holds.",
+    "Every program of a list grammar (bit/int/enum/object elements; fixed sizes 0..3; random sizes under 6 size constraints incl. size tied to a scalar and to an element; foreach over element/index/both with index arithmetic and neighbour relations; sum, product, unique, unique_vec, membership; pairs of statements) x every answer sequence with <=1 non-default answer, two consecutive calls, followed by every edit history of length<=2 out of 7 edits compared step by step with a Python-list twin and a further call whose result must again satisfy the statements over the edited list; the same statements inside a dynamic constraint referenced inline; foreach if/else decided by the index, a non-random field or an element of a non-random list. Oracle over what the list exposes: statements over list(o.l); len == size == iteration length; index == iteration; fixed size kept; size constraint holds.",
     "Trusted: per-program predicates in props/c04.py. Two open known findings (membership in a random-size list; sum/product when the size shares a rand set with an element) are matched by selector + predicted deviation.",
     "deviation-bounded exhaustive exploration of list programs and edit histories against a Python-list twin",
     "DESIGN.md section 3 C04")
@@ -79,17 +79,17 @@ chk("C19",
     "exhaustive pattern x sample-value table against a reference matcher",
     "DESIGN.md section 3 C19")
 chk("C11",
-    "All crosses of 2..3 coverpoints over 7 bin layouts (single bins, arrays, array behind a single bin and vice versa, partial coverage, counted arrays, auto-bins) x iff on the cross and each coverpoint (field/lambda): every single sample (all value tuples x all iff tuples) from a fresh covergroup, and all sample sequences of length<=3 over a menu with miss-all and gated-off samples. Oracle: cross bins = row-major product of the coverpoints' bins, named after them; exactly the bin of the hit combination +1 iff all conditions hold.",
+    "All crosses of 2..3 coverpoints over 7 bin layouts (single bins, arrays, array behind a single bin and vice versa, partial coverage, counted arrays, range-then-value arrays, auto-bins), a second cross of the same arity, the type-level copy of every cross x iff on the cross and each coverpoint (field/lambda): every single sample (all value tuples x all iff tuples) from a fresh covergroup, and all sample sequences of length<=3 over a menu with miss-all and gated-off samples. Oracle: cross bins = row-major product of the coverpoints' bins, named after them; exactly the bin of the hit combination +1 iff all conditions hold.",
     "Trusted: expected() in props/c11.py and the C10 partitioner. Overlapping coverpoint bins are outside the alphabet (the statement defines no single combination then).",
     "exhaustive single-sample table and bounded sample sequences against a reference counter",
     "DESIGN.md section 3 C11")
 chk("C12",
-    "Explicit-state BFS (depth 5 quick / 6 thorough) over histories {create instance of shape s, sample instance i with one of 3 value tuples} for 9 covergroup configurations (crosses, at_least 1/2 at coverpoint and covergroup level, weights 1/3, ignore/illegal, enum, mixed arrays), up to 3 instances. At every state: instance hit vectors = own samples; type hits = bin-wise sum per shape; shapes form separate types; coverage = weighted share of bins with hits >= at_least, within 0..100, non-decreasing along every edge, 100 iff all covered.",
+    "Explicit-state BFS (depth 5 quick / 6 thorough) over histories {create instance of shape s, sample instance i with one of 3 value tuples, query coverage (fills the caches; cache flags are part of the state key)} for 14 covergroup configurations (crosses with their own at_least/weight, at_least 1/2 at coverpoint and covergroup level, weights, ignore/illegal, enum, mixed arrays, wildcard patterns as constructor parameter), each started from either shape, up to 3 instances, a second covergroup class in the registry. At every state: instance hit vectors = own samples; type hits = bin-wise sum per shape; shapes form separate types; coverage = weighted share of bins with hits >= at_least, within 0..100, non-decreasing along every edge, 100 iff all covered.",
     "Trusted: reference counters in props/c12.py. coverpoint.get_coverage() (type level per coverpoint) is not judged: the statement defines type coverage for covergroups.",
     "explicit-state BFS over sample histories with reference counters and a monotonicity invariant on every edge",
     "DESIGN.md section 3 C12")
 chk("C13",
-    "The C12 population BFS (depth 5 / 6, 9 configurations incl. ignore/illegal bins, arrays, crosses, enum, trimmed auto-bins); at EVERY expanded state get_coverage_report_model(), get_coverage_report(details=True) (parsed) and write_coverage_db() re-read with PyUCIS are compared as structures type -> items -> (bin kind, name, count) with the in-memory models; percentages compared with get_coverage()/get_inst_coverage(); the state key must be identical before and after every reporting call.",
+    "The C12 population BFS (depth 5 / 6, 9 configurations incl. ignore/illegal bins, arrays, crosses, enum, trimmed auto-bins); at EVERY expanded state get_coverage_report_model(), get_coverage_report(details=True) (parsed) and write_coverage_db() re-read with PyUCIS are compared as structures type -> items -> (bin kind, name, count) with the in-memory models; percentages compared with get_coverage()/get_inst_coverage(); the state key (incl. registry lists) must be identical before and after every reporting call; instance names listed under a type are pairwise distinct.",
     "Trusted: text parser in props/c13.py; PyUCIS is part of the system under test as used by vsc. Type/instance names are compared by typename and by content (instances as multisets).",
     "explicit-state BFS with a differential oracle between four representations at every state",
     "DESIGN.md section 3 C13")
